@@ -265,6 +265,6 @@ pub fn parts() -> Vec<PartDef> {
                 check_group(gi, &mut evals)
             },
         ),
-        part("action", 70_000, 2_000_000, action_strat, action_oracle),
+        part("action", 1_000_000, 20_000_000, action_strat, action_oracle),
     ]
 }
